@@ -165,9 +165,12 @@ pub enum Got {
     Bad,
 }
 
+pub static CONNECTS: std::sync::atomic::AtomicU64 = std::sync::atomic::AtomicU64::new(0);
+
 impl Client {
     pub fn connect(addr: &Addr) -> std::io::Result<Client> {
         let stream = CStream::connect(addr)?;
+        CONNECTS.fetch_add(1, std::sync::atomic::Ordering::SeqCst);
         let port = stream.local_port();
         let local = stream.local_addr();
         let st = Arc::new((Mutex::new(RecvState::default()), Condvar::new()));
